@@ -39,13 +39,65 @@ func latin1(rng *core.RNG, n int) string {
 	return string(b)
 }
 
+// tiffExif builds a small well-formed Exif TIFF block (either byte order): IFD0 with Orientation,
+// ImageWidth / ImageLength and an Exif sub-IFD with PixelXDimension / PixelYDimension - all of
+// them stating dimensions other than the image's own. None of this is the image header: the
+// properties quantify over files that may carry any such block.
+func tiffExif(rng *core.RNG) []byte {
+	big := rng.Bool()
+	var b []byte
+	p16 := func(v int) {
+		if big {
+			b = append(b, byte(v>>8), byte(v))
+		} else {
+			b = append(b, byte(v), byte(v>>8))
+		}
+	}
+	p32 := func(v int) {
+		if big {
+			b = append(b, byte(v>>24), byte(v>>16), byte(v>>8), byte(v))
+		} else {
+			b = append(b, byte(v), byte(v>>8), byte(v>>16), byte(v>>24))
+		}
+	}
+	if big {
+		b = append(b, 'M', 'M')
+	} else {
+		b = append(b, 'I', 'I')
+	}
+	p16(42)
+	p32(8)
+	entry := func(tag, typ, count, value int) {
+		p16(tag)
+		p16(typ)
+		p32(count)
+		if typ == 3 { // SHORT: left-justified in the 4-byte value field
+			p16(value)
+			p16(0)
+		} else {
+			p32(value)
+		}
+	}
+	p16(4)
+	entry(0x0100, 4, 1, 1+rng.Intn(70000)) // ImageWidth
+	entry(0x0101, 4, 1, 1+rng.Intn(70000)) // ImageLength
+	entry(0x0112, 3, 1, 1+rng.Intn(8))     // Orientation 1..8
+	entry(0x8769, 4, 1, 8+2+4*12+4)        // Exif IFD pointer
+	p32(0)
+	p16(2)
+	entry(0xA002, 4, 1, 1+rng.Intn(70000)) // PixelXDimension
+	entry(0xA003, 4, 1, 1+rng.Intn(70000)) // PixelYDimension
+	p32(0)
+	return b
+}
+
 // randAncillary returns a random sequence of legal ancillary chunks that may
 // precede IDAT (contents are plausible; none is interpreted by prism).
 func randAncillary(rng *core.RNG, max int, big bool) []imggen.PNGChunk {
 	var out []imggen.PNGChunk
 	n := rng.Intn(max + 1)
 	for i := 0; i < n; i++ {
-		switch rng.Intn(11) {
+		switch rng.Intn(13) {
 		case 0:
 			out = append(out, imggen.PNGChunk{Type: "gAMA", Data: []byte{0, 0, 0xb1, 0x8f}})
 		case 1:
@@ -69,11 +121,23 @@ func randAncillary(rng *core.RNG, max int, big bool) []imggen.PNGChunk {
 				out = append(out, imggen.PNGChunk{Type: "tEXt", Data: append(append([]byte("Big"), 0), []byte(latin1(rng, 3000+rng.Intn(9000)))...)})
 			}
 		case 10:
-			out = append(out, imggen.PNGChunk{Type: "eXIf", Data: rng.Bytes(rng.Intn(40))})
+			if rng.Bool() {
+				out = append(out, imggen.PNGChunk{Type: "eXIf", Data: tiffExif(rng)})
+			} else {
+				out = append(out, imggen.PNGChunk{Type: "eXIf", Data: rng.Bytes(rng.Intn(40))})
+			}
+		case 11: // APNG: animation control and a frame control chunk with its own width / height / offsets
+			fc := append(append(append([]byte{0, 0, 0, 0}, be32c(uint32(1+rng.Intn(4000)))...), be32c(uint32(1+rng.Intn(4000)))...), rng.Bytes(18)...)
+			out = append(out, imggen.PNGChunk{Type: "acTL", Data: []byte{0, 0, 0, 2, 0, 0, 0, 0}}, imggen.PNGChunk{Type: "fcTL", Data: fc})
+		case 12: // non-square pixels, sRGB intent, significant bits, background
+			out = append(out, imggen.PNGChunk{Type: "pHYs", Data: append(append(be32c(uint32(1+rng.Intn(9000))), be32c(uint32(1+rng.Intn(9000)))...), byte(rng.Intn(2)))},
+				imggen.PNGChunk{Type: "sRGB", Data: []byte{byte(rng.Intn(4))}})
 		}
 	}
 	return out
 }
+
+func be32c(v uint32) []byte { return []byte{byte(v >> 24), byte(v >> 16), byte(v >> 8), byte(v)} }
 
 func pngSpecFor(w, h uint32, ct, depth, interlace uint8, rng *core.RNG) imggen.PNGSpec {
 	s := imggen.PNGSpec{W: w, H: h, Depth: depth, ColorType: ct, Interlace: interlace, IDAT: rng.Bytes(1 + rng.Intn(40))}
@@ -92,7 +156,14 @@ func randJPEGSegs(rng *core.RNG, max int, big bool) []imggen.JPEGSeg {
 	var out []imggen.JPEGSeg
 	n := rng.Intn(max + 1)
 	for i := 0; i < n; i++ {
-		switch rng.Intn(8) {
+		switch rng.Intn(10) {
+		case 8: // a well-formed Exif block: orientation 1..8 and dimension tags that disagree with the frame header
+			out = append(out, imggen.JPEGSeg{Marker: 0xE1, Payload: append([]byte("Exif\x00\x00"), tiffExif(rng)...), Name: "APP1exif"})
+		case 9: // JFIF with non-square density and a thumbnail of its own size; Adobe APP14 transform flag
+			tw, th := 1+rng.Intn(6), 1+rng.Intn(6)
+			jf := append([]byte("JFIF\x00\x01\x02"), byte(rng.Intn(3)), 0, byte(1+rng.Intn(250)), 0, byte(1+rng.Intn(250)), byte(tw), byte(th))
+			out = append(out, imggen.JPEGSeg{Marker: 0xE0, Payload: append(jf, rng.Bytes(3*tw*th)...), Name: "APP0thumb"},
+				imggen.JPEGSeg{Marker: 0xEE, Payload: []byte{'A', 'd', 'o', 'b', 'e', 0, 100, 0, 0, 0, 0, byte(rng.Intn(3))}, Name: "APP14"})
 		case 0:
 			out = append(out, imggen.JPEGSeg{Marker: 0xE0, Payload: append([]byte("JFIF\x00\x01\x02\x00\x00\x01\x00\x01\x00\x00"), nil...), Name: "APP0"})
 		case 1:
@@ -400,6 +471,16 @@ func hostileSpecials() []genFile {
 		genFile{"png iCCP unknown compression", pngc(ihdr, chunk("iCCP", []byte("n\x00\x07abc")), chunk("IDAT", []byte{1})), imggen.Truth{Format: "PNG"}},
 		genFile{"png two IHDR", pngc(ihdr, ihdr, chunk("IDAT", []byte{1})), imggen.Truth{Format: "PNG"}},
 	)
+	// embedded "profiles" of 0..5 bytes (shorter than any field of an ICC header) in every container
+	for n := 0; n <= 5; n++ {
+		tiny := []byte{0, 0, 0, 128, 'a'}[:n]
+		wb, wt := imggen.WebPSpec{Kind: "VP8X", W: 20, H: 30, ICC: append([]byte{}, tiny...), Payload: []byte{1, 2, 3}}.Build()
+		out = append(out, genFile{fmt.Sprintf("webp ICCP chunk of %d bytes", n), wb, wt})
+		pb, pt := imggen.PNGSpec{W: 9, H: 7, Depth: 8, ColorType: 2, ICC: &imggen.PNGICC{Name: "t", Profile: append([]byte{}, tiny...), Level: 6}, IDAT: []byte{1}}.Build()
+		out = append(out, genFile{fmt.Sprintf("png iCCP inflating to %d bytes", n), pb, pt})
+		jb, jt := imggen.JPEGSpec{Precision: 8, W: 9, H: 7, Comps: imggen.StdComps(1, 1, 1), Before: []imggen.JPEGSeg{imggen.ICCChunkSeg(1, 1, append([]byte{}, tiny...))}, ICC: tiny, ICCState: "ok", Entropy: []byte{1}}.Build()
+		out = append(out, genFile{fmt.Sprintf("jpeg ICC chunk of %d bytes", n), jb, jt})
+	}
 	// WebP: VP8X with wrong chunk length, VP8 with bad start code, VP8L bad signature
 	out = append(out,
 		genFile{"webp VP8X length 11", []byte("RIFF\x20\x00\x00\x00WEBPVP8X\x0b\x00\x00\x00\x20\x00\x00\x00\x01\x00\x00\x01\x00\x00\x00ICCP"), imggen.Truth{Format: "WebP"}},
@@ -432,12 +513,21 @@ var (
 func buildBigFiles(seed int64) []genFile {
 	rng := core.NewRNG(seed, "bigfiles")
 	var out []genFile
-	for _, n := range []int{4<<20 + 4097, 17 << 20} {
+	for _, n := range []int{4<<20 + 4097, 17 << 20, 33<<20 + 4097} {
 		// PNG: one ancillary chunk of n bytes before IDAT, no profile
 		s := pngSpecFor(uint32(1+rng.Intn(5000)), uint32(1+rng.Intn(5000)), 2, 8, 0, rng)
 		s.Pre = []imggen.PNGChunk{{Type: "tEXt", Data: append([]byte("k\x00"), rng.Bytes(n)...)}}
 		b, t := s.Build()
 		out = append(out, genFile{fmt.Sprintf("big: png with a %d-byte tEXt chunk before IDAT", n+2), b, t})
+		if n > 32<<20 { // the largest size only for structures in front of the needed data
+			js := imggen.JPEGSpec{Precision: 8, W: 1 + rng.Intn(9000), H: 1 + rng.Intn(9000), Comps: imggen.StdComps(1, 1, 1), Entropy: []byte{1, 2, 3}}
+			for got := 0; got < n; got += 65533 {
+				js.Before = append(js.Before, imggen.JPEGSeg{Marker: 0xFE, Payload: rng.Bytes(65533), Name: "COMbig"})
+			}
+			jb, jt := js.Build()
+			out = append(out, genFile{fmt.Sprintf("big: jpeg with %d COM segments (%d bytes) before SOF", len(js.Before), n), jb, jt})
+			continue
+		}
 		// PNG: incompressible profile of n bytes (stored: the compressed stream is larger than n)
 		s = pngSpecFor(uint32(1+rng.Intn(5000)), uint32(1+rng.Intn(5000)), 6, 16, 1, rng)
 		s.ICC = &imggen.PNGICC{Name: latin1(rng, 9), Profile: profileBytes(rng, n, 2), Level: 1}
